@@ -59,7 +59,7 @@ MD_CASE = (
     "    have h2 : isSquare A = true → connected_components {c} = .ok (numComponents (bfsAll (adjOf A)), labels (bfsAll (adjOf A))) :=\n"
     "      hc.cc_ok {c} rfl\n"
     "    show _ = liftE (makeDist A)\n"
-    "    simp only [make_distance_matrix_from_adjacency_matrix, issparse, isNdarray, asarray, tocsr, Bool.not_true, Bool.not_false,\n"
+    "    simp only [make_distance_matrix_from_adjacency_matrix, issparse, ascontiguousarray, tocsr, Bool.not_true, Bool.not_false,\n"
     "      Bool.and_self, Bool.and_false, Bool.false_and, Bool.false_eq_true, if_true, if_false, h1]\n"
     "    unfold makeDist\n"
     "    by_cases hsq : isSquare A = true\n"
@@ -91,7 +91,8 @@ OBLIGATIONS["make_distance_matrix_from_adjacency_matrix"] = [
      "  | dense A =>\n" + MD_CASE.replace("{c}", "(.dense A)") +
      "  | sparse f A =>\n" + MD_CASE.replace("{c}", "(.sparse .csr A)").rstrip("\n"),
      "THE WHOLE FUNCTION, for every container kind (nested lists, ndarray, every sparse format) and every matrix of entries: the "
-     "container conversion hands csgraph a dense array or a CSR matrix of the same entries; with `shortest_path` / "
+     "container conversion (`np.ascontiguousarray` of what is not sparse, `.tocsr()` of what is) hands csgraph a C-contiguous dense "
+     "array or a CSR matrix of the same entries; with `shortest_path` / "
      "`connected_components` any implementation of the model's contract, the connectedness test, the warning flag, the "
      "largest-component fallback (`np.unique`, first `argmax`, mask on rows and columns) and the cast are the model's `makeDist`: "
      "same `ValueError`s, same distance matrix, same flag, same dtype"),
